@@ -123,7 +123,15 @@ def manager_new(prog):
                     "; ".join(errs) if errs else "dfs_to_bfs, bfs_to_dfs, lca, tree are built from the one tree by their namesakes"))
     errs = []
     en = [cs for cs in te.calls if cs.callee.name == "enumerate"]
-    if len(en) != 1 or not mir.is_call(strip(en[0].args[0]), "inorder_dfs_iter"):
+
+    def inorder_source(t):
+        """the in-order iterator itself, or a vector collected from it with element-preserving adaptors only"""
+        t = strip(t)
+        while isinstance(t, tuple) and t and t[0] == "call" and t[1].name in ("iter", "into_iter", "collect", "cloned", "copied", "deref",
+                                                                              "as_slice", "to_vec", "clone") and t[2]:
+            t = strip(t[2][0])
+        return mir.is_call(t, "inorder_dfs_iter")
+    if len(en) != 1 or not inorder_source(en[0].args[0]):
         errs.append("?the index loop does not enumerate the in-order iterator")
     stores = [st for st in te.stores if mir.is_call(strip(st[1]), "index_mut") or strip(st[1])[0] == "index"]
     ok_store = False
@@ -149,7 +157,9 @@ def manager_new(prog):
     pushes = [cs for cs in te.calls if cs.callee.name == "push" and "next(" in show(cs.args[1])]
     il = fields.get("index_lookup")
     pushes = [cs for cs in pushes if il is None or il[0] != "mu" or (strip(cs.args[0])[0] == "mutref" and strip(cs.args[0])[1] == il[2])]
-    if len(pushes) != 1 or not show(strip(pushes[0].args[1])).endswith(".0.1"):
+    if il is not None and il[0] == "call" and inorder_source(il) and mir.is_call(il, "collect"):
+        pass      # index_lookup is the in-order iterator collected: every node, in order
+    elif len(pushes) != 1 or not show(strip(pushes[0].args[1])).endswith(".0.1"):
         errs.append("?index_lookup is not filled with every node of the enumeration")
     elif any(c for c, v, _, _ in te.facts_at(pushes[0].bb) if "is_leaf" in show(c) or (strip(c)[0] == "discr" and "next(" in show(c) and ".0.1" in show(c))):
         errs.append("index_lookup receives only some nodes (push is conditional)")
